@@ -55,7 +55,8 @@ campaign() { # target seconds corpus_dir label
 
 run() {
     local target=$1 secs=$2
-    [ -x "$BIN/$target" ] || build
+    # always rebuild: the targets must reflect /repo's current working tree
+    build
     rm -rf "$WORK/corpus/$target" "$WORK/artifacts/$target" "$WORK/stats/$target.json"
     rm -f "$WORK/violations/"*"-$target-"*.json 2>/dev/null
     mkdir -p "$WORK/corpus/$target" "$WORK/stats" "$WORK/violations" "$WORK/run"
